@@ -1,2 +1,3 @@
 import PelGen.Live
 import PelGen.GenPeltool
+import PelGen.GenSections
